@@ -418,7 +418,20 @@ func (env *Env) lookupVar(id *ast.Ident) (Val, bool) {
 	}
 	if env.fr != nil {
 		// local variable or parameter of the executing function: find its cell
-		if al := env.u.allocFor(env.fr, vr); al != nil {
+		al := env.u.allocFor(env.fr, vr)
+		if al != nil {
+			if _, live := env.st.cells[al]; !live {
+				// several cells may carry the same declaration position (the implicit
+				// variables of the clauses of a type switch): use the one that is live
+				for _, c := range env.u.allocCandidates(env.fr, vr) {
+					if _, ok := env.st.cells[c]; ok {
+						al = c
+						break
+					}
+				}
+			}
+		}
+		if al != nil {
 			if env.li != nil && env.fr.aliases[env.li.header] != nil {
 				if hid, ok := env.fr.aliases[env.li.header][al]; ok && !env.isOld {
 					al = hid
@@ -476,6 +489,18 @@ func (u *Unit) allocFor(fr *Frame, v *types.Var) *ssa.Alloc {
 	}
 	u.allocCache[key] = found
 	return found
+}
+
+func (u *Unit) allocCandidates(fr *Frame, v *types.Var) []*ssa.Alloc {
+	var out []*ssa.Alloc
+	for _, b := range fr.fn.Blocks {
+		for _, ins := range b.Instrs {
+			if al, ok := ins.(*ssa.Alloc); ok && al.Comment == v.Name() && al.Pos() == v.Pos() {
+				out = append(out, al)
+			}
+		}
+	}
+	return out
 }
 
 type allocKey struct {
@@ -893,6 +918,10 @@ func (env *Env) call(x *ast.CallExpr) Val {
 			return tb.And(tb.Not(tb.Select(before, m.SliceRef(res))), tb.Lt(tb.Int(0), m.SliceRef(res)), tb.Eq(m.SliceOff(res), m.IxConst(0)))
 		}
 		return tb.And(tb.Not(u.isAlloc0(m.SliceRef(res))), tb.Lt(tb.Int(0), m.SliceRef(res)), tb.Eq(m.SliceOff(res), m.IxConst(0)))
+	case "sameValue":
+		// sameValue(a, b): identical values (for types Go cannot compare with ==:
+		// structs holding slices; slices are compared as headers)
+		return tb.Eq(env.eval(x.Args[0]).(*Term), env.eval(x.Args[1]).(*Term))
 	case "sameSlice":
 		// sameSlice(a, b): the same slice header (array, start, length, capacity)
 		return tb.Eq(env.eval(x.Args[0]).(*Term), env.eval(x.Args[1]).(*Term))
